@@ -64,6 +64,16 @@ func (e *Explorer) applyEnv(s *SNode, a *Action, env *Env, salt string) (*SNode,
 		env.Setup()
 	}
 	nd := e.W.OpenWith(s.N, x.Rnd, x.Now, e.W.Miners[a.Miner%len(e.W.Miners)], 1000+x.Rnd, strings.Join(s.Path, "/")+"/"+a.Name, sc) // same block hash in every environment
+	if a.Before != nil { // transactions of the SAME block executed before the action's own (must be accepted)
+		for _, bs := range a.Before(x) {
+			if bs.Time == 0 {
+				bs.Time = x.Now
+			}
+			if _, err := e.W.Exec(nd, e.W.Txn(*bs)); err != nil {
+				ev.Fatal("action %s: a Before transaction was rejected: %v", a.Name, err)
+			}
+		}
+	}
 	t := e.W.Txn(*spec)
 	evs, err := e.W.Exec(nd, t)
 	e.W.CloseBlock(nd)
@@ -229,11 +239,14 @@ func (d *Differential) worker() {
 		return cur
 	}
 	var roots []*SNode
+	scriptOf := map[*SNode][]Action{}
 	if len(e.Roots) == 0 {
 		roots = append(roots, mkRoot(nil, "genesis"))
 	}
 	for i, r := range e.Roots {
-		roots = append(roots, mkRoot(r, fmt.Sprintf("root%d", i)))
+		rn := mkRoot(r, fmt.Sprintf("root%d", i))
+		scriptOf[rn] = r
+		roots = append(roots, rn)
 	}
 	counter := 0
 	pass := 0
@@ -245,6 +258,18 @@ func (d *Differential) worker() {
 	rebuild := func(root *SNode, acts []*Action) (*SNode, *statecache.StateCache) {
 		lin := statecache.NewStateCache()
 		cur := root
+		// the lineage cache has seen the root's own blocks too (a node that executed the whole chain):
+		// a value written by the root script is cached when the explored sequence starts
+		if script := scriptOf[root]; len(script) > 0 {
+			cur = &SNode{N: e.W.GenesisNode()}
+			for i := range script {
+				p, _ := e.applyEnv(cur, &script[i], &Env{Cache: lin}, fmt.Sprintf("#linroot%d", i))
+				if p == nil {
+					ev.Fatal("lineage rebuild: root script step %d failed", i)
+				}
+				cur = p
+			}
+		}
 		for i, a := range acts {
 			p, _ := e.applyEnv(cur, a, &Env{Cache: lin}, fmt.Sprintf("#lin%d", i))
 			cur = p
